@@ -114,4 +114,9 @@ def c03_sibling_branch_read(v):
     (`if c: y = 1` / `elif d: x = y` inside the region: y is not passed in)."""
     o = v.get("observed") or {}
     reg = o.get("region") or []
-    return any("elif d:\n    x = y" in s for s in reg)
+    if any("elif d:\n    x = y" in s for s in reg):
+        return True
+    # same rule of _read_variable across sibling statements of the region: a conditional write (`if c: x = ...`) followed by a read of that name inside
+    # another conditional construct of the region (`while d: ... y = x`); the extracted function then fails with UnboundLocalError when the first branch is skipped
+    text = "\n".join(reg)
+    return "UnboundLocalError" in (v.get("why") or "") and "if c:" in text and ("while d:" in text or "for i in" in text) and text.index("if c:") < max(text.find("while d:"), text.find("for i in"))
